@@ -32,6 +32,9 @@ ct_isclass = z3.Function('ct_isclass', Ty, B)
 ct_own_recognize = z3.Function('ct_own_recognize', Ty, B)
 ct_own_savorize = z3.Function('ct_own_savorize', Ty, B)
 ct_own_sweeten = z3.Function('ct_own_sweeten', Ty, B)
+ct_vis_recognize = z3.Function('ct_vis_recognize', Ty, B)   # hasattr(T, ...)
+ct_vis_savorize = z3.Function('ct_vis_savorize', Ty, B)
+ct_vis_sweeten = z3.Function('ct_vis_sweeten', Ty, B)
 ct_nparams = z3.Function('ct_nparams', Ty, I)
 ct_pname = z3.Function('ct_pname', Ty, I, S)
 ct_ptype = z3.Function('ct_ptype', Ty, I, Ty)
@@ -192,6 +195,15 @@ class VHook(V):
         self.name = name
 
 
+class VParamSeq(V):
+    """class_subobjects(T): (name, type, required) of the constructor
+    parameters, as a symbolic sequence over the class table"""
+    __slots__ = ('t',)
+
+    def __init__(self, t):
+        self.t = t
+
+
 class VIterSet(V):
     __slots__ = ('s',)
 
@@ -213,7 +225,12 @@ SPECB = ('tyset_empty', 'tyset_of', 'in_set', 'card0', 'card1', 'cardmany',
          'cls_preq', 'cls_bases', 'reg_has', 'reg_has_tag', 'reg_lookup',
          'reg_types', 'reg_tags', 'recog_ok', 'sav_ok', 'sav_result',
          'E', 'err_msg', 'err_causes', 'image_list', 'reg_len', 'set_remove',
-         'image_dict_key', 'image_dict_val', 'dashed', 'is_base_of', 'wf_ty')
+         'image_dict_key', 'image_dict_val', 'dashed', 'is_base_of', 'wf_ty', 'forall_in')
+
+
+ct_subclass = z3.Function('ct_subclass', Ty, Ty, B)       # issubclass(a, b)
+_FORALL = {}       # decl name -> (bound var, body term, skolem function)
+_UVAR = z3.Const('u!forall', Ty)
 
 
 class TypesPlugin:
@@ -400,6 +417,24 @@ class TypesPlugin:
             c = args[1]
             if t is not None and isinstance(c, VExt) and c.name == 'enum.Enum':
                 return [(st, VBool(ct_is_enum(t)))]
+        if name == 'hasattr' and len(args) == 2 and isinstance(
+                args[1], VStr) and z3.is_string_value(args[1].t):
+            t = eng.as_ty(args[0])
+            f = {'_yatiml_recognize': ct_vis_recognize,
+                 '_yatiml_savorize': ct_vis_savorize,
+                 '_yatiml_sweeten': ct_vis_sweeten}.get(
+                     args[1].t.as_string())
+            if t is not None and f is not None:
+                # visible (possibly inherited) hook: a different fact from
+                # "defined in the class's own body"
+                return [(st, VBool(f(t)))]
+        if name == 'issubclass':
+            a, b = eng.as_ty(args[0]), eng.as_ty(args[1])
+            if a is not None and b is not None:
+                eng.assume_note('issubclass between user classes is an '
+                                'uninterpreted reflexive relation')
+                st.assume(ct_subclass(a, a))
+                return [(st, VBool(ct_subclass(a, b)))]
         if name == 'isclass':
             t = eng.as_ty(args[0])
             if t is not None:
@@ -424,15 +459,47 @@ class TypesPlugin:
         return None
 
     def axioms(self, formulas):
-        ax = set_axioms(formulas)
+        ax = forall_axioms(formulas)
+        ax = ax + set_axioms(list(formulas) + ax)
         if _mentions(formulas, ('sp_wf_ty', 'reg_types')):
             ax = ax + wf_axioms(formulas)
         return ax
 
     def v_eq(self, eng, a, b, st):
-        if isinstance(a, (VTySet, VEmptySet)) and isinstance(
+        if isinstance(a, (VTySet, VEmptySet)) or isinstance(
                 b, (VTySet, VEmptySet)):
-            return self.tyset(eng, a) == self.tyset(eng, b)
+            # "collection join": recognize() returns the list [Any] on one
+            # path and sets on the others; only len/iter/in are used on it
+            sa, sb = self.tyset(eng, a), self.tyset(eng, b)
+            if sa is not None and sb is not None:
+                return sa == sb
+        return None
+
+    def call_generator(self, eng, fn, fv, args, kwargs, st, node):
+        if fn.name == 'class_subobjects':
+            t = eng.as_ty(args[0])
+            if t is None:
+                raise Unsupported('class_subobjects of a non-type', node)
+            eng.assume_note('E-ARGSPEC/bounded: class_subobjects(T) yields '
+                            '(name, annotation-or-Any, required) per '
+                            'constructor parameter; checked by the bounded '
+                            'reflection stand-in')
+            st.assume(ct_nparams(t) >= 0)
+            return [(st, VParamSeq(t))]
+        return None
+
+    def iter_desc(self, eng, itv, st, node):
+        if isinstance(itv, VParamSeq):
+            t = itv.t
+            return [(st, ('sym', lambda s: ct_nparams(t),
+                          lambda s, i: VTuple((VStr(ct_pname(t, i)),
+                                               VTy(ct_ptype(t, i)),
+                                               VBool(ct_preq(t, i)))), itv))]
+        return None
+
+    def list_of(self, eng, v, st, node):
+        if isinstance(v, VParamSeq):
+            return [(st, v)]
         return None
 
     def set_comprehension(self, eng, e, g, st, itv, kind):
@@ -530,6 +597,24 @@ class TypesPlugin:
     def call_specb(self, eng, name, args, st, node):
         T = lambda v: eng.models.to_term(eng, v, Ty, st)          # noqa
         SET = lambda v: self.to_set(eng, v)                        # noqa
+        if name == 'forall_in':
+            # forall_in(S, lambda r: P(r)):  every member of S satisfies P.
+            # An uninterpreted predicate of S per (closed) body; instantiated
+            # at ground type terms when assumed, Skolemised when proved.
+            Sset = SET(args[0])
+            lam = args[1]
+            if not (isinstance(lam, VFunc) and isinstance(lam.fn, tuple)):
+                raise Unsupported('forall_in needs a lambda', node)
+            res = eng.call_lambda(lam, [VTy(_UVAR)], st)
+            if len(res) != 1 or isinstance(res[0][1], Raise):
+                raise Unsupported('forall_in body forks', node)
+            body = eng.truth(res[0][1], st)
+            key = 'sp_all_%d' % body.get_id()
+            if key not in _FORALL:
+                _FORALL[key] = (z3.Function(key, so.TySet, B), body,
+                                z3.Function(key + '_sk', so.TySet, Ty))
+                _KEEP.append(body)
+            return VBool(_FORALL[key][0](Sset))
         if name == 'tyset_empty':
             return VTySet(EMPTY_SET)
         if name == 'tyset_of':
@@ -703,6 +788,54 @@ def image(s, f):
         return z3.Lambda([u], z3.And(Ty.is_ty_List(u),
                                      z3.Select(s, Ty.ty_elem(u))))
     raise Unsupported('image under this constructor')
+
+
+_KEEP = []
+
+
+def forall_axioms(formulas):
+    """instances of the forall_in predicates (DESIGN 3.1 'sets of types')"""
+    apps = {}
+    tys = {}
+    seen = set()
+    stack = list(formulas)
+    while stack:
+        t = stack.pop()
+        i = t.get_id()
+        if i in seen:
+            continue
+        seen.add(i)
+        if z3.is_quantifier(t):
+            continue
+        if z3.is_app(t):
+            nm = t.decl().name()
+            if nm in _FORALL:
+                apps[i] = t
+            if t.sort() == Ty and not _occurs(_UVAR, t):
+                k = t.decl().kind()
+                if k == z3.Z3_OP_UNINTERPRETED or t.num_args() == 0 or \
+                        k == z3.Z3_OP_SEQ_NTH or k == z3.Z3_OP_DT_CONSTRUCTOR:
+                    tys[i] = t
+            stack.extend(t.children())
+    if not apps:
+        return []
+    ax = []
+    sks = []
+    for a in apps.values():
+        pred, body, sk = _FORALL[a.decl().name()]
+        S = a.arg(0)
+        w = sk(S)
+        sks.append(w)
+        ax.append(z3.Implies(z3.Not(a), z3.And(
+            z3.Select(S, w), z3.Not(z3.substitute(body, (_UVAR, w))))))
+    cands = list(tys.values())[:30] + sks
+    for a in apps.values():
+        pred, body, sk = _FORALL[a.decl().name()]
+        S = a.arg(0)
+        for g in cands + [pick(S), pick2(S), diffw(S)]:
+            ax.append(z3.Implies(z3.And(a, z3.Select(S, g)),
+                                 z3.substitute(body, (_UVAR, g))))
+    return ax
 
 
 def image_dict(s, other, key_varies):
